@@ -11,10 +11,12 @@ def gradient {n : Nat} (rc rn : Bool) (p : Poly (Vec R n)) :
     Poly (Vec R (((List.range p.names.length).map fun j => derivative rn j p).length * n)) :=
   clean rc rn (stackPolys ((List.range p.names.length).map fun j => derivative rn j p))
 
-/-- `hessian` as repaired: the gradient is brought back to the names of the input before it is differentiated
-again, so the result has one row and one column per indeterminate whatever `retain_names` says -/
+/-- `hessian` as repaired: the gradient is brought back to the names of the input (`align_indeterminants`, which
+stores them in index order) before it is differentiated again, once for each name of the INPUT and in the order of
+`p.names` (`derivative(grad, name) for name in poly.names`): rows follow the same name order as the columns,
+and the result has one row and one column per indeterminate whatever `retain_names` says -/
 def hessianOf {n : Nat} (rc rn : Bool) (p : Poly (Vec R n)) :=
   let g := gradient rc rn p
   let g' : Poly _ := alignIndet (sortDedup natLt (g.names ++ p.names)) g
-  gradient rc rn g'
+  clean rc rn (stackPolys (p.names.map fun x => derivative rn (g'.names.idxOf x) g'))
 end Np
